@@ -56,3 +56,23 @@ class LineInjector:
     def __exit__(self, *a):
         sys.settrace(self._old)
         return False
+
+
+def settle(exc):
+    """Deterministic aftermath of an injected exception: an exception raised at a line event can strike where a
+    real asynchronous exception only rarely does (e.g. on the `with` line that is re-visited just before `__exit__`
+    is called) and leave generator-based context managers of the code under test suspended. Their finalisation -
+    which may run clean-up code of the system under test - must not depend on when the garbage collector happens
+    to run or on how long the harness holds the traceback, so it is forced at once."""
+    import gc
+    import traceback
+
+    if exc is not None:
+        try:
+            traceback.clear_frames(exc.__traceback__)
+        except Exception:  # noqa
+            pass
+        exc.__traceback__ = None
+        exc.__context__ = None
+        exc.__cause__ = None
+    gc.collect(1)
